@@ -433,7 +433,17 @@ def copy_sources(f, local, depth=24, transparent=(), stop=(), F=None):
             elif rv["k"] in ("use", "cast") and rv["o"]["k"] == "const":
                 out.add(("const", rv["o"].get("def") or rv["o"].get("v") or "?"))
             elif rv["k"] == "agg":
-                if rv["ak"] == "adt":
+                if rv["ak"] == "adt" and fields and rv.get("fields") is not None and (fields[0] in rv["fields"] or (fields[0].isdigit() and int(fields[0]) < len(rv["ops"]) and not rv["fields"])):
+                    # reading a field of a freshly built value (`Some(x)` .0, `S { a, .. }` .a)
+                    idx = rv["fields"].index(fields[0]) if fields[0] in rv["fields"] else int(fields[0])
+                    o = rv["ops"][idx]
+                    if o["k"] in ("copy", "move"):
+                        walk(o["p"]["l"], _fields_of(o["p"]) + fields[1:], d + 1)
+                    elif o["k"] == "const":
+                        out.add(("const", o.get("def") or o.get("v") or "?"))
+                elif rv["ak"] == "adt" and fields and not rv["ops"]:
+                    pass        # payload of a payload-less variant (None): infeasible read
+                elif rv["ak"] == "adt":
                     out.add(("agg", "%s::%s" % (rv["adt"], rv["variant"])))
                 elif rv["ak"] == "tuple" and fields and fields[0].isdigit() and int(fields[0]) < len(rv["ops"]):
                     # `(a, b).1`: the scrutinee tuple of a `match (x, y)` - project the operand
